@@ -61,7 +61,7 @@ typedef struct trial {
 	int retarget;                /* retarget mode: queues [ntargets, nq) are leaves whose target changes while they are in use */
 	int ntargets;
 	_Atomic int rt_stop, rt_stalled;
-	_Atomic uint64_t retargets, ephemeral, to_workloop, while_suspended;
+	_Atomic uint64_t retargets, ephemeral, to_workloop, while_suspended, bursts;
 	dispatch_queue_t rt_workloop;
 	_Atomic int frozen[MAXQ];      /* leaf was moved onto a workloop: it cannot be retargeted anymore */
 	pthread_mutex_t rt_mtx[MAXQ];  /* one retarget call per leaf at a time (the freeze must be the last one) */
@@ -379,6 +379,16 @@ static void *retargeter_main(void *arg)
 			pthread_mutex_unlock(&t->rt_mtx[li]);
 			continue;
 		}
+		if (vf_opt_long("rt-burst", 1) && vf_rnd_n(&r, 300) == 0) {
+			/* a backlog: hundreds of retargets of one leaf back to back, no pacing (every one is a barrier item of
+			 * the leaf that takes its side lock when it is applied) */
+			int nb = (int)vf_rnd_range(&r, 200, 1500);
+			for (int b = 0; b < nb; b++) dispatch_set_target_queue(leaf->q, t->qs[(b + li) % t->ntargets].q);
+			atomic_fetch_add(&t->retargets, (uint64_t)nb);
+			atomic_fetch_add(&t->bursts, 1);
+			pthread_mutex_unlock(&t->rt_mtx[li]);
+			continue;
+		}
 		int susp = vf_opt_long("rt-susp", 1) && vf_rnd_n(&r, 6) == 0;
 		if (susp) { dispatch_suspend(leaf->q); atomic_fetch_add(&t->while_suspended, 1); }
 		dispatch_queue_t tq = c < 7 ? t->qs[vf_rnd_n(&r, (uint32_t)t->ntargets)].q :
@@ -655,6 +665,7 @@ static void run_std_trial(int idx)
 		vf_count("retargets_to_ephemeral_queue", atomic_load(&t->ephemeral));
 		vf_count("retargets_to_workloop", atomic_load(&t->to_workloop));
 		vf_count("retargets_while_suspended", atomic_load(&t->while_suspended));
+		vf_count("retarget_bursts", atomic_load(&t->bursts));
 	}
 	vf_watch_end();
 	/* all submissions returned: now every accepted item must run */
